@@ -21,6 +21,8 @@ def sh(cmd, cwd=None, timeout=7200, env=None):
 def main():
     args = [a for a in sys.argv[2:] if not a.startswith("--")]
     thorough = "--thorough" in sys.argv
+    global WT
+    WT = "/tmp/mutwt-" + os.path.basename(args[0]).split(".")[0]
     muts = json.load(open(args[0]))
     prefixes = args[1:]
     os.makedirs("/verif/mutants", exist_ok=True)
